@@ -36,19 +36,21 @@ _ref = {}
 
 
 def workdir():
-    d = h.workdir()
-    pf = os.path.join(d, 'plan.json')
-    with open(pf, 'w') as f:
-        json.dump({'mode': 'flag_words', 'words': ['Wa', 'Wd'], 'log': os.path.join(d, 'srvlog.jsonl')}, f)
-    return d
+    return h.workdir()
+
+
+_ask = [0]
 
 
 def ask(server, i):
     lang, text, extra = REQS[i]
     d = server.dir
-    log = os.path.join(d, 'srvlog.jsonl')
-    if os.path.exists(log):
-        os.unlink(log)
+    # a fresh log file per request: a proofreader process that is still running for an
+    # earlier request (possible under heavy load) cannot write into this one
+    _ask[0] += 1
+    log = os.path.join(d, 'srvlog-%d-%d.jsonl' % (os.getpid(), _ask[0]))
+    with open(os.path.join(d, 'plan.json'), 'w') as f:
+        json.dump({'mode': 'flag_words', 'words': ['Wa', 'Wd'], 'log': log}, f)
     try:
         resp = server.request(text, lang, extra)
     except Exception as e:
@@ -56,6 +58,7 @@ def ask(server, i):
     argv = []
     if os.path.exists(log):
         argv = [json.loads(l)['argv'] for l in open(log, encoding='utf-8')]
+        os.unlink(log)
     return {'response': resp, 'proofreader_argv': argv}
 
 
